@@ -9,6 +9,7 @@ import (
 	"go/token"
 	"go/types"
 	"os"
+	"regexp"
 	"sort"
 	"strings"
 
@@ -689,6 +690,13 @@ func ruleNarrow(c *Ctx, m *Model, fn *ssa.Function) {
 		for f, b := range fieldBounds(sc, 0, 0) {
 			bounded[f] = b
 		}
+		// … and what the explored validator proves on every accepting path (tables of cases unrolled,
+		// helpers seen through): not (N < field)
+		for f, b := range exploredFieldBounds(m, sc) {
+			if old, has := bounded[f]; !has || b < old {
+				bounded[f] = b
+			}
+		}
 	}
 	n := 0
 	for _, b := range fn.Blocks {
@@ -856,6 +864,113 @@ func paramBounds(fn *ssa.Function, depth int) map[int]int64 {
 			}
 			if allSuccessDominatedBy(fn, bo, wantTrue) {
 				out[idx] = bound
+			}
+		}
+	}
+	// a helper the parameter is handed on to, whose error gates success here: tested (`if err != nil
+	// { return err }`) or returned as it is by every success return (`return helper(…)`)
+	for _, ci := range callsIn(fn) {
+		call, isCall := ci.(*ssa.Call)
+		if !isCall {
+			continue
+		}
+		sc := call.Call.StaticCallee()
+		if sc == nil || sc == fn || len(sc.Blocks) == 0 || !isRepoPkgPath(fnPkgPath(sc)) || errResultIndex(sc.Signature) < 0 {
+			continue
+		}
+		gates := false
+		for _, r := range *call.Referrers() {
+			if bo, ok := r.(*ssa.BinOp); ok && (bo.Op == token.NEQ || bo.Op == token.EQL) && (isNilConst(bo.X) || isNilConst(bo.Y)) {
+				if allSuccessDominatedBy(fn, bo, bo.Op == token.EQL) {
+					gates = true
+				}
+			}
+		}
+		if !gates {
+			tail := true
+			nRet := 0
+			for _, r := range successReturns(fn) {
+				nRet++
+				ei := errResultIndex(fn.Signature)
+				if ei < 0 || ei >= len(r.Results) || r.Results[ei] != ssa.Value(call) {
+					tail = false
+				}
+			}
+			gates = tail && nRet > 0
+		}
+		if !gates {
+			continue
+		}
+		sub := paramBounds(sc, depth+1)
+		for i, a := range call.Call.Args {
+			q, isP := a.(*ssa.Parameter)
+			if !isP {
+				continue
+			}
+			if bnd, has := sub[i]; has {
+				for j, fp := range fn.Params {
+					if fp == q {
+						if old, hasOld := out[j]; !hasOld || bnd < old {
+							out[j] = bnd
+						}
+					}
+				}
+			}
+		}
+	}
+	return out
+}
+
+var notLessFact = regexp.MustCompile(`^-Lt\((\d+), req\.([A-Za-z0-9_]+)\)$`)
+
+// exploredFieldBounds: upper bounds on the receiver's integer fields that hold on EVERY accepting path of a
+// Validate method, read off the explored path facts (-Lt(N, req.F): not N < F).
+func exploredFieldBounds(m *Model, fn *ssa.Function) map[string]int64 {
+	out := map[string]int64{}
+	if fn == nil || len(fn.Blocks) == 0 || len(fn.Params) == 0 || m.P.SSA == nil {
+		return out
+	}
+	x := NewExplorer(m)
+	var recv Val
+	if pt, isPtr := fn.Params[0].Type().(*types.Pointer); isPtr {
+		recv = &SymPtr{Base: "req", T: pt.Elem()}
+	} else {
+		recv = &Sym{N: "req", T: fn.Params[0].Type()}
+	}
+	params := []Val{recv}
+	for _, q := range fn.Params[1:] {
+		params = append(params, &Sym{N: q.Name(), T: q.Type()})
+	}
+	x.validatorMode = true
+	outs := x.Explore(fn, params)
+	x.validatorMode = false
+	first := true
+	for _, o := range outs {
+		if o.Kind != exitReturn || !o.Commit {
+			if o.Kind == exitCut {
+				return map[string]int64{}
+			}
+			continue
+		}
+		cur := map[string]int64{}
+		for _, f := range o.St.facts {
+			if mm := notLessFact.FindStringSubmatch(f); mm != nil {
+				var n int64
+				fmt.Sscanf(mm[1], "%d", &n)
+				if old, has := cur[mm[2]]; !has || n < old {
+					cur[mm[2]] = n
+				}
+			}
+		}
+		if first {
+			out, first = cur, false
+			continue
+		}
+		for f, b := range out {
+			if c2, has := cur[f]; !has {
+				delete(out, f)
+			} else if c2 > b {
+				out[f] = c2
 			}
 		}
 	}
